@@ -106,6 +106,7 @@ Error RAStackAllocator::calculate_stack_frame() noexcept {
   // weight and not by size & alignment, so when we need to align some slot we distribute the gap caused by the
   // alignment to `gaps`.
   uint32_t offset = 0;
+  uint64_t bytes_used = 0;
   ArenaVector<RAStackGap> gaps[kSizeCount - 1];
 
   for (RAStackSlot* slot : _slots) {
@@ -121,6 +122,7 @@ Error RAStackAllocator::calculate_stack_frame() noexcept {
     }
 
     uint32_t aligned_offset = Support::align_up(offset, slot_alignment);
+    bytes_used += slot->size();
 
     // Try to find a slot within gaps first, before advancing the `offset`.
     bool found_gap = false;
@@ -181,6 +183,7 @@ Error RAStackAllocator::calculate_stack_frame() noexcept {
     }
   }
 
+  _bytes_used = uint32_t(bytes_used);
   _stack_size = Support::align_up(offset, _alignment);
   return Error::kOk;
 }
